@@ -80,6 +80,10 @@ def build_harness(release=False):
     key = ("harness", release)
     if key in _built:
         return _built[key]
+    # coverage measurement only (tools/coverage.sh): a pre-built, instrumented driver
+    if os.environ.get("VERIF_HARNESS_BIN"):
+        _built[key] = os.environ["VERIF_HARNESS_BIN"]
+        return _built[key]
     # keep the lock file in step with /repo's
     try:
         src = open(os.path.join(REPO, "Cargo.lock")).read()
